@@ -111,6 +111,8 @@ def run_writer(kind, objs, cfgd, filename, export_dir, again=None):
                 w.pgm(verbose=False)
         except ValueError:
             raised = 1
+        except Exception as e:          # any other exception: the export itself fails
+            raised = 'export raised ' + type(e).__name__ + ': ' + str(e)[:200]
     files = sorted(str(p) for p in pathlib.Path('.').rglob('*') if p.is_file())
     expected = str(pathlib.Path(export_dir) / (pathlib.PurePosixPath(filename).stem + SUFFIX[kind]))
     return files, expected, raised
@@ -140,6 +142,9 @@ def run(rep: common.Report, tier: str, seed: int):
         files, expected, raised = run_writer(kind, objs, cfgd, filename, export_dir,
                                              again=(lambda: remutate(rng, kind, objs)) if twice else None)
         case = dict(descr, kind=kind, cfg=cfgd, filename=filename, export_dir=export_dir, exported_twice_with_changed_scans=twice)
+        if isinstance(raised, str):
+            rep.violation(f'C08/{kind}/export-raises', f'the {kind} writer could not export: {raised}', {'input': case})
+            continue
         hist['kinds'][kind] = hist['kinds'].get(kind, 0) + 1
         # naming / emptiness (file-system level)
         if not objs:
